@@ -274,13 +274,22 @@ def replay_half(v, cov, tier):
             f"{len(res.get('violations', []))} violations, {res['_wall_s']:.1f}s")
 
 
-def index_family(prop, tier, plans):
+def index_family(prop, tier, plans, extra=None):
     t0 = time.time()
     cov = new_cov()
     v = Verdict(prop)
     index_models(tier, cov, prop)
     trace_half(v, plans, cov)
     replay_half(v, cov, tier)
+    for name, args in (extra or []):
+        res = run_vh(args, timeout=7200)
+        collect_driver(v, res, {"driver_args": args, "kind": "driver"})
+        cov["evaluations"] += res["cases"]
+        cov["distinct_nontrivial"] += res["nontrivial"]
+        cov["drivers"].append({"driver": name, "runs": res["cases"], "rule": res["rule"], "samples": res.get("samples", [])[:2], "drive_s": round(res["_wall_s"], 1)})
+        if res["cases"] == 0:
+            raise Machinery(f"{name} executed nothing")
+        log(f"[conf] {name}: {res['cases']} runs, {len(res.get('violations', []))} violations, {res['_wall_s']:.1f}s")
     rc = v.finish()
     cov["rule"] = "histories are generated from VERIF_SEED; a history counts as non-trivial by the rule its driver states; distinct by operation sequence / seed"
     cov["checker_cmd"] = "tlc MC_Cache.tla (exhaustive) + tlc LruTrace.tla on recorded traces + tlc -simulate CacheReplay.tla replayed by vh sched"
@@ -332,7 +341,8 @@ def c07(prop, tier):
         ("stress16", ["stress", "-seed", str(s + 1), "-hists", "2" if q else "20", "-workers", "16", "-ops", "8"]),
         ("lru", ["lru", "-seed", str(s), "-hists", "40" if q else "1500", "-ops", "80"]),
     ]
-    return index_family(prop, tier, plans)
+    # whole values through the front ends: concurrent clients, identity and zstd transport
+    return index_family(prop, tier, plans, extra=[("festress", ["festress", "-seed", str(s), "-tier", tier])])
 
 
 @check("C17")
